@@ -76,7 +76,7 @@ pub fn build_item_definition_evaluator(item_definition: &ItemDefinition) -> Resu
   // build item definition evaluator
   match super::item_definition_type(item_definition)? {
     ItemDefinitionType::SimpleType(feel_type) => build_simple_type_evaluator(feel_type, av_evaluator),
-    ItemDefinitionType::ReferencedType(ref_type) => build_referenced_type_evaluator(ref_type),
+    ItemDefinitionType::ReferencedType(ref_type) => build_referenced_type_evaluator(ref_type, av_evaluator),
     ItemDefinitionType::ComponentType => build_component_type_evaluator(item_definition),
     ItemDefinitionType::CollectionOfSimpleType(feel_type) => build_collection_of_simple_type_evaluator(feel_type, av_evaluator),
     ItemDefinitionType::CollectionOfReferencedType(ref_type) => build_collection_of_referenced_type_evaluator(ref_type, av_evaluator),
@@ -217,9 +217,13 @@ fn build_simple_type_evaluator(feel_type: FeelType, av_evaluator: Option<Evaluat
 }
 
 ///
-fn build_referenced_type_evaluator(ref_type: String) -> Result<ItemDefinitionEvaluatorFn> {
+fn build_referenced_type_evaluator(ref_type: String, av_evaluator: Option<Evaluator>) -> Result<ItemDefinitionEvaluatorFn> {
   Ok(Box::new(move |value: &Value, evaluators: &ItemDefinitionEvaluator| {
-    evaluators.eval(&ref_type, value).unwrap_or_else(|| value_null!("no evaluator"))
+    if let Some(evaluated_value) = evaluators.eval(&ref_type, value) {
+      check_allowed_values(evaluated_value, av_evaluator.as_ref())
+    } else {
+      value_null!("no evaluator")
+    }
   }))
 }
 
